@@ -249,3 +249,52 @@ Example C10_example_generated_guards :
   /\ Gen.SanityNet.rejects (shape_of ex_nl (mkNet (OpSelect [3; 0]) [1] 6)) = true
   /\ Gen.SanityNet.rejects (shape_of ex_nl (mkNet (OpSelect [2; 0]) [1] 6)) = false.
 Proof. vm_compute. repeat split; reflexivity. Qed.
+
+(* ---- Block.sanity_check_memory_sync (Netlist/MemSync.v), the part of sanity_check that walks
+   the index logic of synchronous memories.  It is outside the fault classes C10 lists, but a walk
+   that does not come back keeps sanity_check from rejecting anything: defect N37 (fixed in 8eec7ee)
+   was exactly that on "a combinational cycle not broken by a register" placed in such an index. ---- *)
+From PyRTL Require Import Netlist.MemSync Netlist.MemSyncCorrect.
+
+(* With the `checked` set the walk ends on EVERY netlist -- cyclic, undriven, ill-formed -- within
+   the fuel the model hands out, so no result of sync_check is the out-of-fuel value. *)
+Theorem C10_memsync_walk_terminates : forall nl sync r,
+  In r (sync_check nl sync) -> r <> SFuel.
+Proof. exact sync_check_never_out_of_fuel. Qed.
+Print Assumptions C10_memsync_walk_terminates.
+
+(* The loop as it stood before the fix, on a one-net cycle feeding a synchronous read port:
+   no amount of fuel is enough (the real sanity_check hung); the fixed loop ends and leaves the
+   cycle to the topological sort, which rejects it (C10 fault_combinational_cycle). *)
+Theorem C10_memsync_old_walk_refuted : forall fuel, walk_old loop_nl fuel [1] = SFuel.
+Proof. exact walk_old_diverges. Qed.
+Print Assumptions C10_memsync_old_walk_refuted.
+
+(* An accepting walk establishes what the docstring promises: every wire it visited is a register
+   output or is produced by a wire/concat/select net from wires that are Inputs, Consts or visited. *)
+Theorem C10_memsync_accept_sound : forall nl fuel todo S, walk nl fuel todo [] = SOk S ->
+  (forall w, In w todo -> good nl S w) /\ (forall w, In w S -> closed nl S w).
+Proof.
+  intros nl fuel todo S H. destruct (walk_sound nl fuel todo [] S H) as [_ [Hg Hc]].
+  split; [exact Hg|]. intros w Hw. destruct (Hc w Hw) as [[]|Hcl]. exact Hcl.
+Qed.
+Print Assumptions C10_memsync_accept_sound.
+
+(* Once "wires used but never driven" has been ruled out (the check sanity_check makes first), the
+   walk cannot die on a missing wire_src_dict entry: every failure is a proper PyrtlError. *)
+Theorem C10_memsync_no_keyerror : forall nl,
+  (forall n a, In n (nets nl) -> In a (nargs n) -> driven_or_io nl a) ->
+  forall fuel todo c, (forall w, In w todo -> driven_or_io nl w) ->
+  forall x, walk nl fuel todo c <> SKeyError x.
+Proof. exact walk_no_keyerror. Qed.
+Print Assumptions C10_memsync_no_keyerror.
+
+Example C10_example_memsync :
+  memsync_case loop_nl [7] = [[0; 0]]
+  /\ memsync_case (mkNetlist [mkWire 1 2 KInput; mkWire 2 2 KWire; mkWire 3 4 KWire]
+                             [mkNet OpNot [1] 2; mkNet (OpMemRd 7) [2] 3] [mkMem 7 2 4 None]) [7] = [[1; 2]]
+  /\ memsync_case (mkNetlist [mkWire 1 2 KInput; mkWire 2 2 KWire; mkWire 3 4 KWire]
+                             [mkNet OpNot [1] 2; mkNet (OpMemRd 7) [2] 3] [mkMem 7 2 4 None]) [] = []
+  /\ memsync_case (mkNetlist [mkWire 2 2 KWire; mkWire 3 4 KWire]
+                             [mkNet (OpMemRd 7) [2] 3] [mkMem 7 2 4 None]) [7] = [[2; 2]].
+Proof. vm_compute. repeat split; reflexivity. Qed.
